@@ -19,7 +19,8 @@ RULE = ("design: MCDriver with a Raise action enabled wherever a user callable i
         "with the result of a fresh process, and a digest of the module-level mutable objects is compared; "
         "distinct = distinct (run, kind, index, type) injection points")
 
-ETYPES = ["InjectedFault", "TypeError", "IndexError", "ValueError"]
+ETYPES = ["InjectedFault", "TypeError", "IndexError", "ValueError", "StopIteration", "OverflowError", "ZeroDivisionError",
+          "KeyError", "RuntimeError", "AssertionError", "InjectedBase"]
 
 
 def digest(res):
@@ -134,6 +135,8 @@ def run(ctx):
             raise Machinery(f"specification cannot follow a fault trace {conf}: {json.dumps(r['spec'])}")
         for c in sorted(set(cl)):
             ctx.violation(c, {"kind": "fault-injection", "spec": r["spec"], "fault": r["spec"]["fault"], "err": r["err"],
+                              "fault_kind": r["spec"]["fault"][0], "fault_index": r["spec"]["fault"][1], "fault_type": r["spec"]["fault"][2],
+                              "jac_mode": r["spec"].get("jac", "callable"),
                               "summary": f"fault {r['spec']['fault']} -> {r['err']} followup_same={r['followup_same']}"})
     ctx.add_counts(evaluations=len(jobs), distinct_nontrivial=len({json.dumps(j[0]["fault"]) + str(j[0]["pseed"]) for j in jobs}))
     ctx.add_samples([{"spec": j[0]} for j in jobs[:3]])
